@@ -118,7 +118,9 @@ Proposal(r, pol, hdr, tot) == Msg("Proposal", NodeH, r, 0, pol, tot, hdr, FALSE,
 ProposalPOL(pol, size)  == Msg("ProposalPOL", NodeH, 0, 0, pol, size, "none", FALSE, 0, 0)
 NVB(r, hdr, size, c)    == Msg("NVB", NodeH, r, 0, -1, size, hdr, c, 0, 0)
 HasVote(r, t, idx)      == Msg("HasVote", NodeH, r, 0, -1, 0, "none", FALSE, t, idx)
-Vote(h, r, t, idx)      == Msg("Vote", h, r, 0, -1, 0, "none", FALSE, t, idx)
+\* sig: "junk" = 64 arbitrary bytes under a validator's address; "nonval" = a VALID signature of a key that is
+\* not in the validator set (its own address in the vote)
+Vote(h, r, t, idx, sig) == Msg("Vote", h, r, 0, -1, 0, sig, FALSE, t, idx)
 Maj23(r, t)             == Msg("Maj23", NodeH, r, 0, -1, 0, "node", FALSE, t, 0)
 VSBits(r, t, hdr, size) == Msg("VSBits", NodeH, r, 0, -1, size, hdr, FALSE, t, 0)
 
@@ -272,8 +274,12 @@ NextRound(nd) == LET x == SetRound(nd, nd.r + 2) IN [nd |-> [x.nd EXCEPT !.r = n
 Commit(nd) == [nd |-> [nd EXCEPT !.step = "done"], halt |-> FALSE]
 
 \* ------------------------------------------------------------------ the alphabet of one hostile peer
-VoteMsgs == {Vote(h, r, t, idx) : h \in {NodeH - 2, NodeH - 1, NodeH, NodeH + 1}, r \in {0, 1, 2, MaxInt32},
-                                  t \in {Prevote, Precommit}, idx \in {-1, 1, N, MaxInt32}}
+\* rounds r-1 .. r+3 and a huge one (the node is in round 0 or 1), heights H-2 .. H+1
+VoteRounds == {-1, 0, 1, 2, 3, MaxInt32}
+VoteMsgs ==
+       {Vote(h, r, t, idx, "junk") : h \in {NodeH - 2, NodeH - 1, NodeH, NodeH + 1}, r \in VoteRounds,
+                                     t \in {Prevote, Precommit}, idx \in {-1, 1, N, MaxInt32}}
+  \cup {Vote(h, r, t, 1, "nonval") : h \in {NodeH - 2, NodeH - 1, NodeH, NodeH + 1}, r \in VoteRounds, t \in {Prevote, Precommit}}
 HostileMsgs ==
        {NRS(h, r, s) : h \in {NodeH, NodeH + 1}, r \in {0, 1}, s \in {1, 3, 6, 8}}
   \cup {Proposal(r, pol, "foreign", tot) : r \in {0, 1}, pol \in {-1, 0}, tot \in (Sizes \cap 1..MaxParts)}
@@ -298,11 +304,11 @@ SetupPrefixes ==
     <<NRS(NodeH, 0, StepPropose), Proposal(0, 0, "foreign", N)>>,
     <<NRS(NodeH, 1, StepPropose), Proposal(1, 0, "foreign", N)>>,
     <<NRS(NodeH, 1, StepPropose), Proposal(1, 0, "node", NodeParts)>>,
-    <<NRS(NodeH, 0, StepPropose), Vote(NodeH, 0, Prevote, 1)>>,
+    <<NRS(NodeH, 0, StepPropose), Vote(NodeH, 0, Prevote, 1, "junk")>>,
     <<NRS(NodeH, 0, StepPropose), Maj23(0, Prevote)>>,
     <<NRS(NodeH, 0, StepPropose), HasVote(0, Prevote, 1)>>,
     <<NRS(NodeH, 1, StepPropose), Proposal(1, 0, "foreign", N), Maj23(0, Prevote)>>,
-    <<NRS(NodeH, 1, StepPropose), Proposal(1, 0, "foreign", N), Vote(NodeH, 0, Prevote, 1)>> }
+    <<NRS(NodeH, 1, StepPropose), Proposal(1, 0, "foreign", N), Vote(NodeH, 0, Prevote, 1, "junk")>> }
 BitArrayMsgs ==
        {ProposalPOL(0, size) : size \in Sizes}
   \cup {NVB(r, "foreign", size, c) : r \in {0, 1}, size \in Sizes, c \in BOOLEAN}
@@ -313,7 +319,7 @@ BitArrayMsgs ==
 VoteTargets(nd) ==
   IF nd.hasLC THEN {<<v>> : v \in VoteMsgs} \cup {<<NRS(NodeH, 0, StepNewHeight), v>> : v \in VoteMsgs}
   ELSE IF nd.abs = 1 THEN {<<v>> : v \in {w \in VoteMsgs : w.idx = 1}}
-  ELSE {<<v>> : v \in {w \in VoteMsgs : w.idx = 1 /\ w.h < NodeH /\ w.r \in {0, 2}}}
+  ELSE {<<v>> : v \in {w \in VoteMsgs : w.idx = 1 /\ w.hdr = "junk" /\ w.h < NodeH /\ w.r \in {0, 2}}}
 \* a targeted case: the node class the sequence is fed in, and the sequence
 TargetedSeqs ==
        {[nd |-> LaterClass, sq |-> Append(pre, m)] : pre \in SetupPrefixes, m \in BitArrayMsgs}
@@ -339,14 +345,16 @@ FeedSeq(nd, p, sq) ==
        ELSE LET g == GossipAll(x.nd, x.p) IN
             IF g.panic THEN [nd |-> x.nd, p |-> g.p, crash |-> TRUE, halt |-> FALSE]
             ELSE FeedSeq(x.nd, g.p, Tail(sq))
-\* ... and then the node carries on: (start the height,) one failed round, one committed height; the goroutines
-\* keep running on what the sequence left in the peer state
+\* ... and then the node carries on: (start the height,) two failed rounds (r -> r+1 -> r+2), one committed
+\* height; the goroutines keep running on what the sequence left in the peer state
 CarryOn(nd, p) ==
   LET a == IF nd.step = "newheight" THEN StartHeight(nd) ELSE [nd |-> nd, halt |-> FALSE]
       g1 == GossipAll(a.nd, p)
       b == NextRound(a.nd)
       g2 == GossipAll(b.nd, g1.p)
-  IN [crash |-> g1.panic \/ g2.panic, halt |-> a.halt \/ b.halt]
+      c == NextRound(b.nd)
+      g3 == GossipAll(c.nd, g2.p)
+  IN [crash |-> g1.panic \/ g2.panic \/ g3.panic, halt |-> a.halt \/ b.halt \/ c.halt]
 \* [crash |-> a goroutine panicked (the process dies), halt |-> consensus halted (the node is wedged)]
 RunCase(c) ==
   LET f == FeedSeq(c.nd, NewPRS, c.sq)
